@@ -126,6 +126,104 @@ def acquire_sites(p, fi):
     return out
 
 
+def _self_attr(e):
+    return e.attr if isinstance(e, ast.Attribute) and isinstance(e.value, ast.Name) and e.value.id == "self" else None
+
+
+def managed_by_class(p, fi, call, idx):
+    """An acquire inside __init__/__enter__ of a class that defines __enter__ and __exit__ (a context manager of lasio's
+    own): returns None when fi is not such a method, else (ok, text, resource attribute).
+
+    Obligations: the handle goes to exactly one attribute self.A; __exit__ calls self.A.close(); when self.A can also hold an
+    object that was not opened here (the caller's), the close is guarded by a flag attribute that is set to True only in the
+    block that performs the acquire; every instantiation of the class in lasio is the context expression of a `with`."""
+    cls = fi.cls
+    if cls is None or fi.name not in ("__init__", "__enter__") or "__exit__" not in cls.methods or "__enter__" not in cls.methods:
+        return None
+    # the statement binding the handle and the block it sits in
+    stmt = None
+    for sub in walk_shallow(fi.node):
+        if isinstance(sub, ast.Assign) and sub.value is call:
+            stmt = sub
+    if stmt is None:
+        return False, "the handle from %s is not bound by an assignment" % ast.unparse(call.func), None
+    hv = _handle_var_of(stmt, call, idx)
+    direct = _self_attr(stmt.targets[0]) if len(stmt.targets) == 1 else None
+    attrs, foreign = set(), set()
+    for sub in walk_shallow(fi.node):
+        if isinstance(sub, ast.Assign) and len(sub.targets) == 1 and _self_attr(sub.targets[0]):
+            a = _self_attr(sub.targets[0])
+            if sub is stmt:
+                attrs.add(a)
+            elif hv and isinstance(sub.value, ast.Name) and sub.value.id == hv:
+                attrs.add(a)
+                # hv may also hold something else (a parameter rebound by the acquire)
+                if hv in fi.params():
+                    foreign.add(a)
+    if direct:
+        attrs.add(direct)
+    if len(attrs) != 1:
+        return False, "the handle is stored in %s: exactly one attribute of the context manager must own it" % sorted(attrs), None
+    attr = next(iter(attrs))
+    ex = cls.methods["__exit__"]
+    closes = [c for c in walk_shallow(ex.node) if isinstance(c, ast.Call) and isinstance(c.func, ast.Attribute) and c.func.attr == "close"
+              and _self_attr(c.func.value) == attr]
+    if not closes:
+        return False, "%s.__exit__ does not call self.%s.close()" % (cls.name, attr), attr
+    for c in closes:
+        cur, child = getattr(c, "_parent", None), c
+        guards = []
+        while cur is not None and cur is not ex.node:
+            if isinstance(cur, (ast.For, ast.While, ast.Try)) and not (isinstance(cur, ast.Try) and child in cur.finalbody):
+                if isinstance(cur, ast.Try) and child in cur.body:
+                    pass
+                else:
+                    return False, "self.%s.close() in __exit__ sits inside a %s" % (attr, type(cur).__name__), attr
+            if isinstance(cur, ast.If):
+                guards.append((cur, child in cur.body))
+            child, cur = cur, getattr(cur, "_parent", None)
+        flags = []
+        for g, in_body in guards:
+            fa = _self_attr(g.test)
+            if fa is None or not in_body:
+                return False, "self.%s.close() in __exit__ is guarded by `%s`, not by the 'opened here' flag" % (attr, ast.unparse(g.test)), attr
+            flags.append(fa)
+        if attr in foreign and not flags:
+            return False, ("self.%s may hold the caller's object but __exit__ closes it unconditionally" % attr), attr
+        for fa in flags:
+            # every `self.<flag> = True` lies in the block of the acquire; elsewhere only False
+            block = getattr(stmt, "_parent", None)
+            for m in cls.methods.values():
+                for sub in walk_shallow(m.node):
+                    if isinstance(sub, ast.Assign) and any(_self_attr(t) == fa for t in sub.targets):
+                        v = sub.value
+                        if isinstance(v, ast.Constant) and v.value is False:
+                            continue
+                        if isinstance(v, ast.Constant) and v.value is True and getattr(sub, "_parent", None) is block and m is fi:
+                            continue
+                        return False, ("flag self.%s is set by `%s` outside the block that opens the file: __exit__ could close "
+                                       "the caller's object, or leave an opened file open" % (fa, ast.unparse(sub))), attr
+            trues = [sub for sub in walk_shallow(fi.node) if isinstance(sub, ast.Assign) and any(_self_attr(t) == fa for t in sub.targets)
+                     and isinstance(sub.value, ast.Constant) and sub.value.value is True]
+            if not trues:
+                return False, "flag self.%s is never set where the file is opened: the file stays open" % fa, attr
+    # instantiations
+    for f2 in p.all_functions():
+        if isinstance(f2.node, ast.Lambda):
+            continue
+        withs = set()
+        for n in walk_shallow(f2.node):
+            if isinstance(n, (ast.With, ast.AsyncWith)):
+                for it in n.items:
+                    withs.add(id(it.context_expr))
+        for n in walk_shallow(f2.node):
+            if isinstance(n, ast.Call) and isinstance(n.func, ast.Name) and n.func.id == cls.name and f2.module is cls.module:
+                if id(n) not in withs:
+                    return False, "%s(...) is created outside a with-statement in %s: nothing guarantees __exit__ runs" % (cls.name, f2.qual), attr
+    return True, ("handle is owned by the context manager %s: stored in self.%s, closed by __exit__ (flag-guarded when the "
+                  "object may be the caller's), and every %s(...) is the subject of a with-statement" % (cls.name, attr, cls.name)), attr
+
+
 def _flag_vars(cfg):
     """names whose every definition in the function is a constant bool"""
     defs = {}
@@ -287,6 +385,10 @@ def rule_typestate(ctx, only=None):
                 ctx.ok("IO.TYPESTATE", site, fi, call, "handle acquired by %s is released by the enclosing "
                        "with-statement on every exit" % ast.unparse(call.func))
                 continue
+            mg = managed_by_class(p, fi, call, idx)
+            if mg is not None:
+                ctx.check(mg[0], "IO.TYPESTATE", site, fi, call, mg[1], mg[1])
+                continue
             nodes = cfg.node_of_expr(call)
             if not nodes:
                 ctx.bad("IO.TYPESTATE", site, fi, call, "acquire %s sits in unreachable/unmodelled code" % ast.unparse(call))
@@ -439,6 +541,11 @@ def rule_no_escape(ctx):
             continue
         cfg = build_cfg(p, fi)
         hvars = set()
+        managed_attrs = set()
+        for call, kind, with_stmt, idx in sites:
+            mg = managed_by_class(p, fi, call, idx)
+            if mg is not None and mg[0]:
+                managed_attrs.add(mg[2])
         for call, kind, with_stmt, idx in sites:
             for nid in cfg.node_of_expr(call):
                 v = _handle_var_of(cfg.nodes[nid].ast, call, idx)
@@ -457,7 +564,7 @@ def rule_no_escape(ctx):
             for sub in walk_shallow(fi.node):
                 if isinstance(sub, ast.Assign):
                     uses = any(isinstance(s, ast.Name) and s.id == v for s in ast.walk(sub.value))
-                    if uses and any(isinstance(t, (ast.Attribute, ast.Subscript)) for t in sub.targets):
+                    if uses and any(isinstance(t, (ast.Attribute, ast.Subscript)) and _self_attr(t) not in managed_attrs for t in sub.targets):
                         bad = (sub, "owned handle '%s' is stored into %s" % (v, ast.unparse(sub.targets[0])))
                 elif isinstance(sub, ast.Call) and isinstance(sub.func, ast.Attribute) and sub.func.attr in (
                         "append", "add", "insert", "extend", "setdefault", "update", "__setattr__", "__setitem__"):
